@@ -7,6 +7,7 @@ import O2P.Model.Diagram
 import O2P.Model.Learn
 import O2P.Props.C07
 import O2P.Props.C14
+import O2P.Model.Gate
 /-!
 Model driver: one JSON request per line on stdin, one JSON reply per line on stdout.
 Numbers that may exceed 2^53 travel as decimal strings.
@@ -543,6 +544,61 @@ def run (j : Json) : Except String Json := do
 
 end PVFileOps
 
+namespace GateOps
+open O2P.Gate
+
+def opName : O2P.Gate.Op → String
+  | .and => "+"
+  | .or => "O"
+  | .xor => "X"
+
+partial def gateJson : Gate → Json
+  | .leaf a => Json.str a
+  | .node op cs => Json.arr (#[Json.str (opName op)] ++ (cs.map gateJson).toArray)
+
+partial def gateOfJson (j : Json) : Except String Gate := do
+  match j with
+  | .str a => pure (.leaf a)
+  | .arr a =>
+    match a.toList with
+    | .str o :: cs => do
+      let op ← match o with
+        | "+" => pure O2P.Gate.Op.and
+        | "O" => pure O2P.Gate.Op.or
+        | "X" => pure O2P.Gate.Op.xor
+        | _ => throw s!"operator {o}"
+      pure (.node op (← cs.mapM gateOfJson))
+    | _ => throw "bad gate"
+  | _ => throw "bad gate"
+
+def famJson (f : List (List String)) : Json := Json.arr (f.map fun s => Json.arr (s.map Json.str).toArray).toArray
+
+/-- the whole domain over n events: tree, family, membership in the exactness sub-class -/
+def opDomain (j : Json) : Except String Json := do
+  let n ← match j.getObjVal? "n" with
+    | .ok v => match v.getNat? with
+      | .ok k => pure k
+      | .error _ => throw "n"
+    | .error _ => throw "n"
+  pure <| Json.arr ((domain n).map fun g => Json.mkObj [("tree", gateJson g), ("family", famJson (family g)),
+    ("subclass", inSubclass g)]).toArray
+
+/-- soundness / exactness of an inferred tree against the source tree -/
+def opJudge (j : Json) : Except String Json := do
+  let src ← gateOfJson (← (j.getObjVal? "src"))
+  match j.getObjVal? "inferred" with
+  | .ok ij =>
+    match gateOfJson ij with
+    | .error e => pure <| Json.mkObj [("error", e)]
+    | .ok inf =>
+      let missing := (family src).filter fun s => !admits inf s
+      let extra := (family inf).filter fun s => !admits src s
+      pure <| Json.mkObj [("sound", soundB src inf), ("exact", exactB src inf), ("subclass", inSubclass src),
+        ("missing", famJson missing), ("extra", famJson extra)]
+  | .error _ => throw "inferred"
+
+end GateOps
+
 def handle (j : Json) : Except String Json := do
   let op ← getStr j "op"
   match op with
@@ -559,6 +615,8 @@ def handle (j : Json) : Except String Json := do
   | "learn.ingest" => LearnOps.opIngest j
   | "graph.check" => GraphOps.run j
   | "pvfile.roundtrip" => PVFileOps.run j
+  | "gate.domain" => GateOps.opDomain j
+  | "gate.judge" => GateOps.opJudge j
   | _ => throw s!"unknown op {op}"
 
 partial def loop (h : IO.FS.Stream) (out : IO.FS.Stream) : IO Unit := do
